@@ -7,6 +7,7 @@ import (
 	"fmt"
 	"sort"
 	"strings"
+	"unicode"
 	"unicode/utf16"
 	"unicode/utf8"
 
@@ -832,9 +833,9 @@ func (rd *renderer) js(n *Node) string {
 	case "trim", "trimStart", "trimEnd":
 		return fmt.Sprintf("%s.%s()", rd.js(n.A), n.K)
 	case "upper":
-		return rd.js(n.A) + ".toUpperCase()"
+		return "UPPER(" + rd.js(n.A) + ")"
 	case "lower":
-		return rd.js(n.A) + ".toLowerCase()"
+		return "LOWER(" + rd.js(n.A) + ")"
 	case "jsonrt":
 		return "JSON.parse(JSON.stringify(" + rd.js(n.A) + "))"
 	case "jsonq":
@@ -1004,11 +1005,43 @@ func runCase(c Case) vh.Record {
 	}
 	rt := goja.New()
 	rd := &renderer{rt: rt, tags: map[string]bool{}}
+	// CASEDX(x): does x (surrogates paired up, whatever pieces they came from) contain a non-ASCII code point that takes
+	// part in Unicode case mapping?  The model's case map is the ASCII one, so for such an operand the case-mapping
+	// node is evaluated with the ASCII map in the harness instead of goja's toUpperCase/toLowerCase (x/text is not
+	// modelled) and the case is tagged: the oracle stays sound on every string the generator can produce.
+	rt.Set("CASEDX", func(call goja.FunctionCall) goja.Value {
+		str, ok := call.Argument(0).(goja.String)
+		if !ok {
+			return rt.ToValue(false)
+		}
+		n := str.Length()
+		for i := 0; i < n; i++ {
+			r := rune(str.CharAt(i))
+			if r >= 0xD800 && r <= 0xDBFF && i+1 < n {
+				if lo := rune(str.CharAt(i + 1)); lo >= 0xDC00 && lo <= 0xDFFF {
+					r = utf16.DecodeRune(r, lo)
+					i++
+				}
+			}
+			if r < 0x80 || r >= 0xD800 && r <= 0xDFFF {
+				continue
+			}
+			if unicode.ToLower(r) != r || unicode.ToUpper(r) != r || unicode.ToTitle(r) != r ||
+				unicode.IsLower(r) || unicode.IsUpper(r) || unicode.IsTitle(r) || r == 0x345 {
+				rd.tags["case-mapping-outside-model"] = true
+				return rt.ToValue(true)
+			}
+		}
+		return rt.ToValue(false)
+	})
 	// LIT does the dictionary lookups FIRST (on a fresh value nothing has scanned an imported string yet)
 	if _, err := rt.RunString(`function U(v){return v===undefined?"":v}
 function UNITS(s){var r=[];for(var i=0;i<s.length;i++)r.push(s.charCodeAt(i));return r}
 function PAIR(a,b){return [a===b,b===a,a==b,Object.is(a,b),a<b,a>b,new Map([[a,1]]).get(b)===1,new Map([[b,1]]).get(a)===1,({[a]:1})[b]===1]}
 function LIT(a,l){return new Map([[a,1]]).get(l)===1&&new Map([[l,1]]).get(a)===1&&new Set([a,l]).size===1&&new Set([l,a]).size===1&&({[a]:1})[l]===1&&({[l]:1})[a]===1&&a===l&&l===a}
+function ASCIICASE(x,up){var r=[];for(var i=0;i<x.length;i++){var c=x.charCodeAt(i);if(up&&c>=97&&c<=122)c-=32;if(!up&&c>=65&&c<=90)c+=32;r.push(c)}return String.fromCharCode.apply(null,r)}
+function UPPER(x){return CASEDX(x)?ASCIICASE(x,true):x.toUpperCase()}
+function LOWER(x){return CASEDX(x)?ASCIICASE(x,false):x.toLowerCase()}
 function SELF(k){var s=new Set();s.add(k);var m=new Map([[k,1]]);var n=k.length;return s.has(k)&&m.get(k)===1&&s.size===1&&(s.add(k),s.size===1)}`); err != nil {
 		panic(err)
 	}
